@@ -14,7 +14,18 @@ Installed scenarios (first token 2; coq/C18_ModelG.v):  2 gop*  with
 Observation: one item per op and per final destruction:
   :j <nev> (:A <id> <sz> | :F <id> <sz>)* (~ | :r <id> <off>) <warn> <out> <dbl>
   events = calls on the recording allocator; out / dbl = pointers the innermost object's cache holds of its underlying allocator /
-  returns of pointers that were not outstanding, counted by a forwarding recorder below the object."""
+  returns of pointers that were not outstanding, counted by a forwarding recorder below the object.
+
+Environment scenarios (first token 3; coq/C18_ModelE.v):  3 <rf|~> <ra|~> eop*  with
+  eop ::= :mi <k> | :gi | :ci | :go | :ti | :tr | :a <n> | :s <n> | :d <k>
+  one cache object at a time (:gi GlobalSimpleStringCache, :ci cache + adaptor wired by hand, :go destroys it; alive at the end = destroyed)
+  over the base string allocator U, which builds a string with an rf-byte buffer inside free_memory and an ra-byte buffer inside
+  alloc_memory through the string allocator in force at that moment; :mi k makes the default malloc allocator (0) / M1 / M2 current;
+  :ti installs the string allocator T on top of what is in force, :tr takes it out if it is still current; :a / :s request from, :d k
+  returns (with its size) the k-th request's buffer to, the string allocator in force.
+Observation: one item per op (and per final destruction):
+  :k <nev> (:A <who> <id> <sz> | :F <who> <id> <sz> | :R <id> <off> <n>)* (~ | :r <id> <off>) <warn>
+  who = 0 defaultMallocAllocator, 1 M1, 2 M2, 3 U, 4 T; ids = ordinals over all allocators; :R = where U's own string got its buffer."""
 ID = "C18"
 FLAVOURS = ["asan"]
 HARNESS_SRCS = ["harness/C18.cpp"]
@@ -32,7 +43,15 @@ RULE = ("histories of 1-300 operations over sizes {0,1,31,32,33,63,64,65,95,96,9
         "(right size, wrong size, foreign), with 0-4 buffers of either kind STILL IN USE when the object is destroyed or cleared, clearCache / "
         "clearAll before the destruction, buffers obtained before any installation or under an earlier / outer object released under the "
         "next / inner one and after it, objects left to the implicit destruction at the end; plus every combination of {cached, non-cached, "
-        "string, released, in use} x {clearCache, clearAll, nothing} before the destruction of a single and of a nested object")
+        "string, released, in use} x {clearCache, clearAll, nothing} before the destruction of a single and of a nested object.  "
+        "ENVIRONMENT histories (one object at a time over a base string allocator that RE-ENTERS the string allocator from inside free_memory / "
+        "alloc_memory with a string of rf / ra bytes; five allocators with their own books): every combination of {malloc allocator current at "
+        "construction: default, M1, M2} x {changed in between: no, default, M1, M2} x {GlobalSimpleStringCache, cache + adaptor by hand} x {nothing "
+        "on top, another string allocator on top at destruction (removed afterwards or not), installed and removed before} x {rf, ra: none, in the "
+        "class of the buffers used, in another class, above the bound} x {nothing, released, in use, both} for cached and non-cached buffers; random "
+        "lives of one to three objects with requests focused on the classes of rf / ra, releases in any order, episodes with the other string "
+        "allocator on top (its own requests and releases), requests straight at the base allocator before / between / after the objects, "
+        "changes of the malloc allocator at every point, objects left to the implicit destruction")
 ASSUMPTIONS = ["a released pointer refers to readable NUL-terminated memory (the one-time warning prints it with %s by design); the harness keeps "
                "blocks given back to the underlying allocator readable for exactly such a release and poisons them otherwise",
                "the underlying allocator never fails and never returns an address twice within a history (pointer equality = block identity)",
@@ -41,7 +60,12 @@ ASSUMPTIONS = ["a released pointer refers to readable NUL-terminated memory (the
                "installed scenarios: the strings the one-time warning builds for itself (their sizes depend on the wording and on the path of the "
                "source file) are served outside the cache by the harness; the node array of an installed object's cache comes from the malloc "
                "allocator and is not in the recording allocator's books; objects are destroyed in the reverse order of their construction; with "
-               "nothing installed a scenario releases only what it obtained with nothing installed, once, with its size"]
+               "nothing installed a scenario releases only what it obtained with nothing installed, once, with its size",
+               "environment scenarios: one object at a time, constructed while the base string allocator is the current one; a buffer goes back, "
+               "with its size, to the allocator that served it while that allocator is in force (no unknown releases: those are the other two "
+               "modes); clearCache / clearAll are not called on an installed cache from outside (GlobalSimpleStringCache offers no such call); the "
+               "adaptor object itself (operator new / delete) is outside the books; the re-entering allocator does not re-enter while it is "
+               "already building its string"]
 CRASH_IS_VIOLATION = True
 PER_TIMEOUT = 30.0
 
@@ -403,8 +427,375 @@ def exhaustive_installed():
         out.append("2 :gi %s :d 0 %x :go :gi %s :go" % (kinds[a], sizes[a], kinds[a]))
     return out
 
+
+# ------------------------------------------------------------------------------------------------ environment scenarios
+class EnvRef:
+    """the script of the environment as coq/C18_ModelE.v reads it off a scenario (env_step / evalid_ops): who is in force, who served what"""
+
+    def __init__(self):
+        self.cur, self.tsv, self.obj, self.nser = "U", "U", None, 0
+        self.reqs = []          # per request: tag while in use (0 U, 1 T, 2+serial the object) or None
+        self.sizes = []
+
+    def tag(self):
+        if self.cur == "U":
+            return 0
+        if self.cur == "T":
+            return 1
+        return 2 + self.obj if self.obj is not None else 0
+
+    def step(self, o):
+        """-> False if the op is not valid here"""
+        k = o[0]
+        if k == ":mi":
+            return int(o[1], 16) <= 2
+        if k in (":gi", ":ci"):
+            if self.obj is not None or self.cur != "U":
+                return False
+            self.obj, self.nser, self.cur = self.nser, self.nser + 1, "C"
+            return True
+        if k == ":go":
+            if self.obj is None:
+                return False
+            t = 2 + self.obj
+            self.reqs = [None if r == t else r for r in self.reqs]
+            self.obj, self.cur = None, "U"
+            return True
+        if k == ":ti":
+            if self.cur == "T":
+                return False
+            self.tsv, self.cur = self.cur, "T"
+            return True
+        if k == ":tr":
+            if self.cur == "T":
+                self.cur = self.tsv
+            return True
+        if k in (":a", ":s"):
+            if k == ":s" and int(o[1], 16) == 0:
+                return False
+            self.reqs.append(self.tag())
+            self.sizes.append(int(o[1], 16))
+            return True
+        if k == ":d":
+            i = int(o[1], 16)
+            if i >= len(self.reqs) or self.reqs[i] is None or self.reqs[i] != self.tag():
+                return False
+            self.reqs[i] = None
+            return True
+        return False
+
+    def releasable(self):
+        t = self.tag()
+        return [i for i, r in enumerate(self.reqs) if r == t]
+
+
+def evalid(head, ops):
+    if len(head) != 2:
+        return False
+    r = EnvRef()
+    return all(r.step(o) for o in ops)
+
+
+def env_split(s):
+    t = s.split()
+    ops, cur = [], []
+    for x in t[3:]:
+        if x.startswith(":") and cur:
+            ops.append(cur)
+            cur = []
+        cur.append(x)
+    if cur:
+        ops.append(cur)
+    return t[1:3], ops
+
+
+def env_fmt(head, ops):
+    return ("3 %s %s " % (head[0], head[1]) + " ".join(" ".join(o) for o in ops)).strip()
+
+
+def optx(v):
+    return "~" if v is None else "%x" % v
+
+
+def gen_env(rng, budget):
+    focus = rng.sample(range(len(CLASSES) + 1), rng.choice([1, 1, 2]))
+
+    def size():
+        if rng.random() < 0.1:
+            return max(1, rng.choice(EDGE))
+        return max(1, size_in_class(rng, rng.choice(focus)))
+
+    def rsize():
+        m = rng.random()
+        if m < 0.3:
+            return None
+        if m < 0.75:
+            return max(1, size_in_class(rng, rng.choice(focus)))      # in a class the scenario uses
+        return max(1, size_in_class(rng, rng.randrange(len(CLASSES) + 1)))
+    rf, ra = rsize(), rsize()
+    if rng.random() < 0.25:
+        ra = None
+    r = EnvRef()
+    ops = []
+
+    def emit(o):
+        o = o.split()
+        assert r.step(o), (ops, o)
+        ops.append(o)
+
+    def request():
+        emit((":s" if rng.random() < 0.35 else ":a") + " %x" % size())
+
+    def release_some(keep):
+        rel = r.releasable()
+        rng.shuffle(rel)
+        for i in rel[keep:]:
+            emit(":d %x" % i)
+
+    def maybe_mal(p):
+        if rng.random() < p:
+            emit(":mi %x" % rng.choice([0, 1, 1, 2]))
+
+    def top_episode():
+        emit(":ti")
+        for _ in range(rng.choice([0, 1, 2])):
+            request()
+        if rng.random() < 0.7:
+            release_some(rng.choice([0, 0, 1]))
+
+    for _ in range(rng.choice([0, 0, 1, 2])):        # straight at the base allocator
+        request()
+    maybe_mal(0.5)
+    if rng.random() < 0.3 and r.releasable():
+        release_some(rng.choice([0, 1]))
+    if rng.random() < 0.15:                            # the other allocator over the base allocator, gone before the object comes
+        top_episode()
+        emit(":tr")
+    for ph in range(rng.choice([1, 1, 2, 3])):
+        if len(ops) >= budget:
+            break
+        maybe_mal(0.3)
+        emit(rng.choice([":gi", ":gi", ":ci"]))
+        for _ in range(rng.choice([0, 1, 2, 3, 5, 8])):
+            request()
+        maybe_mal(0.3)
+        release_some(rng.choice([0, 0, 1, 2, 3]))
+        if rng.random() < 0.4:
+            for _ in range(rng.choice([1, 2, 3])):
+                request()
+            if rng.random() < 0.6:
+                release_some(rng.choice([0, 1, 2]))
+        if rng.random() < 0.3:                         # the other allocator comes and goes
+            top_episode()
+            emit(":tr")
+            if rng.random() < 0.5:
+                request()
+        at_top = rng.random() < 0.4                    # ... or is on top when the object dies
+        if at_top:
+            top_episode()
+        maybe_mal(0.3)
+        if rng.random() < 0.15:
+            break                                       # left to the implicit destruction
+        emit(":go")
+        if at_top and rng.random() < 0.6:
+            emit(":tr")
+        if rng.random() < 0.4:
+            request()
+        if rng.random() < 0.4:
+            release_some(rng.choice([0, 1]))
+        if r.cur == "T" and rng.random() < 0.8:
+            emit(":tr")
+    return env_fmt([optx(rf), optx(ra)], ops)
+
+
+def exhaustive_env():
+    import itertools
+    out = []
+    uses = {"-": [], "rel": [":a 14", ":d 0"], "use": [":a 14"], "both": [":a 14", ":a 14", ":d 0"], "two": [":a 14", ":a 14", ":d 1", ":d 0"],
+            "nrel": [":a 12c", ":d 0"], "nuse": [":s 12c"], "mix": [":s 14", ":a 12c", ":a 50", ":d 2", ":d 1"]}
+    # the malloc allocator at construction / in between x the kind of object x what is on top when it dies
+    for m0, m1, kind, top in itertools.product(("", ":mi 1", ":mi 2"), ("", ":mi 0", ":mi 1", ":mi 2"), (":gi", ":ci"), ("", "t", "tr", "gone")):
+        for u in ("use", "both"):
+            ops = ([m0] if m0 else []) + [kind] + uses[u] + ([m1] if m1 else [])
+            if top in ("t", "tr"):
+                ops += [":ti", ":a 20"]
+            if top == "gone":
+                ops += [":ti", ":a 20", ":d %x" % (len([x for x in uses[u] if x[1] in "as"])), ":tr"]
+            ops.append(":go")
+            if top == "tr":
+                ops.append(":tr")
+            out.append("3 ~ ~ " + " ".join(ops))
+    # the re-entering allocator: its string in the class of the buffers, in another class, above the bound x what the cache holds
+    for rf, ra, kind, u, top in itertools.product((None, 0xa, 0x28, 0x12c), (None, 0xa, 0x12c), (":gi", ":ci"), sorted(uses), ("", "t")):
+        if rf is None and ra is None and not top:
+            continue
+        ops = [kind] + uses[u] + ([":ti"] if top else []) + [":go"]
+        out.append("3 %s %s " % (optx(rf), optx(ra)) + " ".join(ops))
+    # straight at the base allocator, before and after an object
+    for rf, ra in ((0xa, None), (None, 0xa), (0x14, 0x14)):
+        out.append("3 %s %s :a 14 :gi :a 14 :go :d 0 :a 14 :d 2" % (optx(rf), optx(ra)))
+    for o in out:
+        h, ops = env_split(o)
+        assert evalid(h, ops), o
+    return out
+
+
+def classify_env(s):
+    head, ops = env_split(s)
+    lab = ["environment"]
+    rf = None if head[0] == "~" else int(head[0], 16)
+    ra = None if head[1] == "~" else int(head[1], 16)
+    lab.append("re-enters-on-free:" + ("no" if rf is None else "class%d" % cls(rf)))
+    lab.append("re-enters-on-alloc:" + ("no" if ra is None else "class%d" % cls(ra)))
+    r = EnvRef()
+    mal = 0
+    mal_at_ctor = None
+    idle = {}            # request index -> class of a buffer given back to the object's cache
+    for o in ops + [[":go"]]:
+        k = o[0]
+        if k == ":go" and r.obj is None:
+            break
+        if k == ":mi":
+            mal = int(o[1], 16)
+            if r.obj is not None and mal != mal_at_ctor:
+                lab.append("malloc-allocator:changed-while-object-alive")
+        if k in (":gi", ":ci"):
+            mal_at_ctor = mal
+            lab.append("malloc-allocator-at-construction:" + ("default" if mal == 0 else "recording"))
+            lab.append("object:" + ("global" if k == ":gi" else "by-hand"))
+            idle = {}
+        if k == ":d" and r.cur == "C":
+            idle[int(o[1], 16)] = cls(r.sizes[int(o[1], 16)])
+        if k == ":go":
+            if mal != mal_at_ctor:
+                lab.append("malloc-allocator-at-destruction:other-than-at-construction")
+            if r.cur == "T":
+                lab.append("other-string-allocator-on-top-at-destruction")
+            t = 2 + r.obj
+            if any(x == t for x in r.reqs):
+                lab.append("destroyed-with-in-use")
+            if rf is not None and cls(rf) in idle.values():
+                lab.append("destroyed-with-idle-block-of-the-re-entering-class")
+            elif idle:
+                lab.append("destroyed-with-idle-block")
+        if k == ":ti":
+            lab.append("other-string-allocator:" + ("over-the-cache" if r.cur == "C" else "over-the-base"))
+        if k in (":a", ":s") and r.cur == "U":
+            lab.append("request-straight-at-the-base-allocator")
+        if k in (":a", ":s") and r.cur == "C" and ra is not None:
+            lab.append("request-at-the-cache-under-re-entering-alloc")
+        if k == ":d" and r.cur == "C" and rf is not None and cls(r.sizes[int(o[1], 16)]) >= len(CLASSES):
+            lab.append("non-cached-release-under-re-entering-free")
+        r.step(o)
+    lab.append("objects:%d" % r.nser)
+    return sorted(set(lab))
+
+
+def eitems(o):
+    res, cur = [], []
+    for x in o.split():
+        if x == ":k" and cur:
+            res.append(cur)
+            cur = []
+        cur.append(x)
+    if cur:
+        res.append(cur)
+    return res
+
+
+def signature_env(s, o):
+    """coarse: what the books of the allocators show first"""
+    try:
+        own, freed = {}, set()
+        _, ops = env_split(s)
+        r = EnvRef()
+        ptr = []                  # per request the block its buffer lies in
+        for i, it in enumerate(eitems(o)):
+            op = ops[i] if i < len(ops) else [":go"]
+            j = 2
+            for _ in range(int(it[1], 16)):
+                k = it[j]
+                a, b = int(it[j + 1], 16), int(it[j + 2], 16)
+                j += 4
+                if k == ":A":
+                    own[b] = a
+                elif k == ":F":
+                    if b not in own:
+                        return "environment: a block returned that nobody handed out (at %s)" % op[0]
+                    if own[b] != a:
+                        return "environment: a block of allocator %d returned to allocator %d (at %s)" % (own[b], a, op[0])
+                    if b in freed:
+                        return "environment: a block returned twice (at %s)" % op[0]
+                    freed.add(b)
+                elif k == ":R":
+                    if a in freed or a not in own:
+                        return "environment: the re-entering allocator's string served from memory already returned (at %s)" % op[0]
+            if it[j] == ":r":
+                ptr.append(int(it[j + 1], 16))
+                if ptr[-1] in freed or ptr[-1] not in own:
+                    return "environment: a buffer handed out inside memory already returned (at %s)" % op[0]
+            if it[-1] == "1":
+                return "environment: warning (at %s)" % op[0]
+            r.step(op)
+            if op[0] == ":go":
+                direct = set(ptr[n] for n, t in enumerate(r.reqs) if t is not None and n < len(ptr))
+                left = sorted(set(own[b] for b in own if b not in freed and b not in direct))
+                if left:
+                    return "environment: blocks of allocator(s) %s still out after the destruction" % left
+        return "environment: other (events / returned pointer)"
+    except Exception:
+        return "environment: malformed observation"
+
+
+def shrink_env(s):
+    head, ops = env_split(s)
+
+    def emit(h, new):
+        if evalid(h, new):
+            yield env_fmt(h, new)
+
+    for i in range(len(ops) - 1, -1, -1):
+        o = ops[i]
+        if o[0] in (":a", ":s"):
+            k = sum(1 for x in ops[:i] if x[0] in (":a", ":s"))
+            new = []
+            for j, x in enumerate(ops):
+                if j == i:
+                    continue
+                if x[0] == ":d":
+                    kk = int(x[1], 16)
+                    if kk == k:
+                        continue
+                    if kk > k:
+                        x = [":d", "%x" % (kk - 1)]
+                new.append(x)
+            yield from emit(head, new)
+        elif o[0] == ":go" and i == len(ops) - 1:
+            yield from emit(head, ops[:i])
+        else:
+            yield from emit(head, ops[:i] + ops[i + 1:])
+    # an object together with its destruction
+    for i, o in enumerate(ops):
+        if o[0] in (":gi", ":ci"):
+            m = next((j for j in range(i + 1, len(ops)) if ops[j][0] == ":go"), None)
+            yield from emit(head, [x for j, x in enumerate(ops) if j != i and j != m])
+    if head[0] != "~":
+        yield from emit(["~", head[1]], ops)
+    if head[1] != "~":
+        yield from emit([head[0], "~"], ops)
+    for i, o in enumerate(ops):
+        if o[0] == ":s":
+            yield from emit(head, ops[:i] + [[":a", o[1]]] + ops[i + 1:])
+        if o[0] == ":ci":
+            yield from emit(head, ops[:i] + [[":gi"]] + ops[i + 1:])
+    for hi in (0, 1):
+        if head[hi] not in ("~", "a"):
+            h2 = list(head)
+            h2[hi] = "a"
+            yield from emit(h2, ops)
+
 def generate(tier, rng):
-    out = exhaustive() + exhaustive_installed()
+    out = exhaustive() + exhaustive_installed() + exhaustive_env()
     if tier == "quick":
         plan = [(900, 1, 14), (500, 10, 40), (60, 60, 300)]
     else:
@@ -414,6 +805,8 @@ def generate(tier, rng):
             out.append(gen_history(rng, rng.randrange(lo, hi + 1)))
     for _ in range(1500 if tier == "quick" else 60000):
         out.append(gen_installed(rng, rng.choice([6, 12, 25, 60])))
+    for _ in range(1500 if tier == "quick" else 50000):
+        out.append(gen_env(rng, rng.choice([8, 15, 30, 60])))
     return out
 
 
@@ -434,7 +827,14 @@ def is_installed(s):
     return s.split()[0] == "2"
 
 
+def is_env(s):
+    return s.split()[0] == "3"
+
+
 def nontrivial(s):
+    if is_env(s):
+        _, eops = env_split(s)
+        return any(o[0] in (":gi", ":ci") for o in eops) and any(o[0] in (":a", ":s") for o in eops)
     _, ops = split_ops(s)
     if is_installed(s):
         return any(o[0] == ":gi" for o in ops) and any(o[0] in (":a", ":s") for o in ops)
@@ -540,6 +940,8 @@ def classify_installed(s):
 
 
 def classify(s):
+    if is_env(s):
+        return classify_env(s)
     if is_installed(s):
         return classify_installed(s)
     via, ops = split_ops(s)
@@ -574,6 +976,8 @@ def signature(s, o):
     """coarse: the kind of the first operation whose observation departs from the textbook cache"""
     if o.startswith("!"):
         return "crash " + o[:70]
+    if is_env(s):
+        return signature_env(s, o)
     if is_installed(s):
         return signature_installed(s, o)
     try:
@@ -694,6 +1098,9 @@ def fmt(via, ops):
 
 
 def shrink(s):
+    if is_env(s):
+        yield from shrink_env(s)
+        return
     if is_installed(s):
         yield from shrink_installed(s)
         return
